@@ -212,26 +212,28 @@ Definition is_time_key (k : string) : bool :=
 
 Definition is_zone_key (k : string) : bool := negb (is_date_key k) && negb (is_time_key k).
 
+(* the body of strptime once the regex is built *)
+Definition after_build (md : mode) (cfg : pcfg) (toks : list ptok) (text : string) : pres ptp :=
+  match pmatch toks text [] with
+  | None => PErr ESyntax
+  | Some e =>
+    match lookup_env "seconds_since_unix_epoch" e with
+    | Some _ => PErr EUnmodelled
+    | None =>
+      let de := filter (fun kv => is_date_key (fst kv)) e in
+      let te := filter (fun kv => is_time_key (fst kv)) e in
+      let ze := filter (fun kv => is_zone_key (fst kv)) e in
+      match process_zone cfg ze with
+      | PErr x => PErr x
+      | POk z => create_timepoint md cfg (mkInfo de te z "") "" false
+      end
+    end
+  end.
 Lemma strptime_unfold T md cfg text fmt :
   strptime T md cfg text fmt =
   match build_p T (split_format fmt "") with
   | None => PErr ESyntax
-  | Some toks =>
-    match pmatch toks text [] with
-    | None => PErr ESyntax
-    | Some e =>
-      match lookup_env "seconds_since_unix_epoch" e with
-      | Some _ => PErr EUnmodelled
-      | None =>
-        let de := filter (fun kv => is_date_key (fst kv)) e in
-        let te := filter (fun kv => is_time_key (fst kv)) e in
-        let ze := filter (fun kv => is_zone_key (fst kv)) e in
-        match process_zone cfg ze with
-        | PErr x => PErr x
-        | POk z => create_timepoint md cfg (mkInfo de te z "") "" false
-        end
-      end
-    end
+  | Some toks => after_build md cfg toks text
   end.
 Proof. reflexivity. Qed.
 
@@ -962,4 +964,65 @@ Lemma L_utc : lookup_env "time_zone_utc" ze = None. Proof. unfold ze. lk_key (@n
 Lemma L_zs : lookup_env "time_zone_sign" ze = opt uZ (zsign c). Proof. unfold ze. lk_key ["%z"]. Qed.
 Lemma L_zh : lookup_env "time_zone_hour" ze = opt uZ (digs 2 (zabs c / 60)). Proof. unfold ze. lk_key ["%z"]. Qed.
 Lemma L_zm : lookup_env "time_zone_minute" ze = opt uZ (digs 2 (zabs c mod 60)). Proof. unfold ze. lk_key ["%z"]. Qed.
+
+Lemma zone_num_cons ze0 : ze0 <> [] ->
+  zone_num cfg ze0 =
+  if has_key "time_zone_utc" ze0 then POk (Some (0, Some 0))
+  else match nz ze0 "time_zone_hour" with
+       | None => PErr EValue
+       | Some h =>
+         let neg := match lookup_env "time_zone_sign" ze0 with Some s => String.eqb s "-" | None => false end in
+         let sg := fun v : Z => if neg then (- v) else v in
+         POk (Some (sg h, option_map sg (nz ze0 "time_zone_minute")))
+       end.
+Proof. destruct ze0; [congruence|reflexivity]. Qed.
+
+Lemma zone_part :
+  zone_num cfg ze = (if uses ["%z"] items then POk (Some (czh c, Some (czm c))) else zone_num cfg []).
+Proof.
+  pose proof L_zs as A1. pose proof L_zh as A2. pose proof L_zm as A3. pose proof L_utc as A0.
+  unfold uZ in A1, A2, A3. destruct (uses ["%z"] items) eqn:U.
+  - cbn [opt] in A1, A2, A3. rewrite zone_num_cons by (intros E0; rewrite E0 in A2; discriminate).
+    unfold has_key, nz. rewrite A0, A1, A2, A3. cbn [option_map].
+    destruct (zone_sign_abs _ _ (cr_zone _ _ R)) as (Z1 & Z2 & Z3).
+    pose proof (cr_zone _ _ R) as VZ. unfold valid_zone in VZ. cbn [zh zm] in VZ.
+    unfold zabs. rewrite Z2, Z3, !dnum_digs_2 by lia. unfold zsign. cbv zeta.
+    destruct (60 * czh c + czm c <? 0) eqn:E0; cbn [String.eqb Ascii.eqb Bool.eqb];
+      (repeat f_equal; destruct (0 <? czh c) eqn:E1; destruct (czh c <? 0) eqn:E2; lia).
+  - unfold ze, e. rewrite (ze_empty _ _ P U). reflexivity.
+Qed.
+
+Lemma parse_call s : posix c items = Some s -> after_build md cfg (toks_of items) s = parsed_call md cfg c items.
+Proof.
+  intros PS. destruct (toks_text c (cr_year _ _ R) items P) as (s' & E1 & E2 & E3 & OK).
+  assert (Es : s = render_toks (toks_of items) (asg c)) by congruence.
+  unfold row_parse_ok in OK. apply andb_true_iff in OK. destruct OK as [OK KZ].
+  apply andb_true_iff in OK. destruct OK as [OK KT]. apply andb_true_iff in OK. destruct OK as [FW KD].
+  unfold after_build. rewrite Es. rewrite (pmatch_render _ _ [] (fixedw_simple _ FW) E3). cbn [List.app].
+  fold e.
+  assert (LU : lookup_env "seconds_since_unix_epoch" e = None).
+  { unfold e. rewrite (lookup_bindings _ _ _ NG). rewrite (binds_toks "seconds_since_unix_epoch" ["%s"] eq_refl items S).
+    unfold parse_fmt in P. apply andb_true_iff in P. destruct P as [_ P2]. apply negb_true_iff in P2. rewrite P2. reflexivity. }
+  rewrite LU. cbv zeta. fold de te ze.
+  assert (DD : digit_env DATE_KEYS de) by (apply digit_env_filter, bindings_digit_env; assumption).
+  assert (DT : digit_env TIME_KEYS te) by (apply digit_env_filter, bindings_digit_env; assumption).
+  assert (DZ : digit_env ZONE_KEYS ze) by (apply digit_env_filter, bindings_digit_env; assumption).
+  transitivity (zn <-- zone_num cfg ze ;;; point_num md cfg de te zn "" false).
+  { rewrite <- (zone_num_ok cfg ze DZ). destruct (process_zone cfg ze) as [z|x]; [|reflexivity]. cbn [pbind].
+    rewrite create_timepoint_num by (cbn [i_date i_time]; assumption). reflexivity. }
+  rewrite zone_part. unfold parsed_call.
+  match goal with |- pbind ?z _ = pbind ?z _ => destruct z as [zn|x]; [|reflexivity] end. cbn [pbind].
+  unfold point_num, has_key, nz, nq, ndec.
+  rewrite L_trunc_d, L_exp, L_sign, L_yod, L_week, L_dow, L_cen, L_yoc, L_month, L_dom, L_doy,
+          L_trunc_t, L_hdec, L_mdec, L_sdec, L_hour, L_min, L_sec.
+  rewrite !has_opt, !map_opt. cbv beta zeta.
+  cbn [option_map od negb andb orb]. rewrite ?andb_negb_l. cbn [negb andb orb].
+  destruct (civil_small md c R) as (Rm & Rd & Rj).
+  pose proof (cr_year _ _ R) as Ry. pose proof (cr_h _ _ R) as Rh. pose proof (cr_mi _ _ R) as Rmi.
+  pose proof (cr_s _ _ R) as Rs.
+  rewrite !od_opt, !dnum_digs_2, dnum_digs_3 by lia.
+  replace (0 + (if uY then cy c mod 100 else 0) + 100 * (if uY then cy c / 100 else 0) + 10000 * 0)
+    with (if uY then cy c else 0) by (destruct uY; lia).
+  reflexivity.
+Qed.
 End Strp.
